@@ -1265,6 +1265,11 @@ func (schema *Schema) visitEnumOperation(settings *schemaValidationSettings, val
 				if v == float64(c) {
 					return
 				}
+			case int32:
+				// a parameter decoded as format int32
+				if v == float64(c) {
+					return
+				}
 			default:
 				if reflect.DeepEqual(v, value) {
 					return
